@@ -380,9 +380,6 @@ pub fn run(report: &Report, budget: &Budget) {
         }
         // Deviation bound 2: a second fault at every later operation of the diverged trace.
         if let [(k, kind1)] = plan.fail[..] {
-            if !thorough && kind1 != ErrorKind::Other {
-                return;
-            }
             let kinds: &[ErrorKind] = if thorough { &FAULT_KINDS } else { &[ErrorKind::Other] };
             for r in log.iter().filter(|r| r.idx > k) {
                 for kind2 in kinds {
@@ -422,7 +419,7 @@ pub fn run(report: &Report, budget: &Budget) {
     report.set("distinct_nontrivial", json!(states.lock().unwrap().len()));
     report.set("deviation_bound_completed", json!(if done == cases.len() && !budget.was_hit() { if thorough { 3 } else { 2 } } else if done == cases.len() { 1 } else { 0 }));
     report.set("exhaustive", json!(done == cases.len() && !budget.was_hit()));
-    report.set("rule", json!(format!("bound 0: fault-free run; bound 1: every operation k of every scenario's storage trace (reads included) failing with each of {:?}, plus a storage outage from every k on; bound 2: for every bound-1 run{} a second fault at every later operation of the diverged trace{}. distinct_nontrivial = distinct canonical end states differing from the fault-free end state", FAULT_KINDS.map(kind_name), if thorough { "" } else { " with kind Other" }, if thorough { " with each kind" } else { " with kind Other" })));
+    report.set("rule", json!(format!("bound 0: fault-free run; bound 1: every operation k of every scenario's storage trace (reads included) failing with each of {:?}, plus a storage outage from every k on; bound 2: for every bound-1 run{} a second fault at every later operation of the diverged trace{}. distinct_nontrivial = distinct canonical end states differing from the fault-free end state", FAULT_KINDS.map(kind_name), "", if thorough { " with each kind, and a third (kind Other) after every pair" } else { " with kind Other" })));
     report.assume("faults are injected at the transport seam (the operation does not touch storage and returns the error kind)");
     report.assume("the 'random multi-fault sequences' of the quantifier are replaced by all fault pairs and all outage suffixes (exhaustive, no sampling)");
 }
